@@ -295,6 +295,18 @@ func c03Doubling(n int) []string {
 	return []string{a.String(), b.String(), c.String()}
 }
 
+// definitions that use the previous decorator twice below their own `next`: one use of the last
+// inlines 2^n blocks, which the expansion budget refuses long before
+func c03DecoDoubling(n int) string {
+	var b strings.Builder
+	b.WriteString("counter c\ndef d0 {\n  /a/ {\n    next\n  }\n}\n")
+	for k := 1; k <= n; k++ {
+		fmt.Fprintf(&b, "def d%d {\n  /a/ {\n    next\n  }\n  @d%d {\n    c++\n  }\n  @d%d {\n    c++\n  }\n}\n", k, k-1, k-1)
+	}
+	fmt.Fprintf(&b, "@d%d {\n  c++\n}\n", n)
+	return b.String()
+}
+
 var c03Hand = []string{
 	// capture groups named like numbers, inside decorators (whose scope is copied from a map) and
 	// outside: whatever is decided, it is decided the same way every time
@@ -494,6 +506,7 @@ func init() {
 			}
 			var srcs []string
 			srcs = append(srcs, c03Hand...)
+			srcs = append(srcs, c03DecoDoubling(3), c03DecoDoubling(12), c03DecoDoubling(21))
 			// the same with one statement per line, so that they get past the parser
 			for _, h := range c03Hand {
 				if strings.Contains(h, "{ ") && strings.Contains(h, " }") {
